@@ -7,6 +7,7 @@ import SF.Props.C01
 import SF.Props.C05
 import SF.Props.C06
 import SF.Props.C11
+import SF.Lemmas.DoublePole
 /-
   C08 — Readiness: None during warm-up, then a value for ever.
   Warm-up lengths are read off the characterisations: the view reports `some` exactly from the documented value on,
@@ -249,5 +250,68 @@ theorem chain_readyStable (A : View α) (B : Core α) (hB : B.ReadyStable) : (wr
 theorem tanh_readyStable (A : View α) (hA : A.ReadyStable) : (mapV Transc.tanh A).ReadyStable :=
   Ready.mapV_readyStable _ A hA
 end stable
+
+end SF.C08
+
+/-! ### readiness of the remaining views, through their batch definitions -/
+namespace SF.C08
+open SF SF.Spec
+variable {α : Type} [Field α] [LinearOrder α] [IsStrictOrderedRing α] [FloatLike α] [ExactScalar α]
+
+/-- NET reports as soon as its window holds two values (never for N = 1), and for ever after -/
+theorem net_ready (N : Nat) (hN : 0 < N) (xs : List α) :
+    (∃ v, (netCore (α := α) N).outAfter xs = .ok (some v)) ↔ 2 ≤ N ∧ 2 ≤ xs.length := by
+  rw [C06.net_eq_kendall N hN]
+  have hl := lastN_length N xs
+  by_cases h : (lastN N xs).length < 2
+  · simp [Spec.net, h]; omega
+  · simp [Spec.net, h]; omega
+
+/-- CyberCycle reports from the 1st value -/
+theorem cyberCycle_ready [Transc α] (N : Nat) (hN : 6 ≤ N) (xs : List α) :
+    (∃ v, (ccCoreU (α := α) N).outAfter xs = .ok (some v)) ↔ 1 ≤ xs.length := by
+  rw [C11.cyberCycle_eq N hN, CC.cyberCycle_unfold]
+  cases xs with
+  | nil => simp
+  | cons x r =>
+    obtain ⟨v, hv⟩ := DoublePole.C_succ_cons N (x :: r) r.length
+    simp [hv]
+
+/-- a fold whose `Option` component is, at every step, either kept or set to a value: once it holds a value it always does -/
+theorem fold_opt_stable {σ β γ : Type} (f : σ × Option β → γ → σ × Option β)
+    (hf : ∀ acc x, (f acc x).2 = acc.2 ∨ ∃ v, (f acc x).2 = some v) (ys : List γ) (acc : σ × Option β)
+    (h : ∃ v, acc.2 = some v) : ∃ v, (ys.foldl f acc).2 = some v := by
+  induction ys generalizing acc with
+  | nil => simpa using h
+  | cons y r ih =>
+    simp only [List.foldl_cons]
+    apply ih
+    rcases hf acc y with e | ⟨v, e⟩
+    · rw [e]; exact h
+    · exact ⟨v, e⟩
+
+theorem ite_keep_or_some {β : Type} (c : Prop) [Decidable c] (a : Option β) (b : β) :
+    (if c then a else some b) = a ∨ ∃ v, (if c then a else some b) = some v := by
+  by_cases h : c
+  · left; simp [h]
+  · right; exact ⟨b, by simp [h]⟩
+
+/-- **LaguerreRSI: readiness never reverts** — if it reports after `xs` it reports after `xs ++ ys`, for every N -/
+theorem laguerreRsi_ready_stable [Transc α] (N : Nat) (xs ys : List α)
+    (h : ∃ v, (lagRsiCore (α := α) N).outAfter xs = .ok (some v)) :
+    ∃ v, (lagRsiCore (α := α) N).outAfter (xs ++ ys) = .ok (some v) := by
+  rw [C11.laguerreRsi_eq] at h ⊢
+  obtain ⟨v, hv⟩ := h
+  have hv := Except.ok.inj hv
+  by_cases hl : xs.length < 2
+  · have : xs.drop 2 = [] := List.drop_eq_nil_of_le (by omega)
+    simp [Spec.laguerreRsi, this] at hv
+  · have hd : (xs ++ ys).drop 2 = xs.drop 2 ++ ys := List.drop_append_of_le_length (by omega)
+    simp only [Spec.laguerreRsi] at hv ⊢
+    rw [hd, List.foldl_append]
+    simp only [Except.ok.injEq]
+    refine fold_opt_stable _ ?_ ys _ ⟨v, hv⟩
+    intro acc x
+    exact ite_keep_or_some _ _ _
 
 end SF.C08
